@@ -398,6 +398,12 @@ class State:
             k = self.trace[self.pos]
             self.pos += 1
             return k
+        D = self.cfg.get("enumerate_depth")
+        if D is not None and self.pos >= D:
+            # prefix enumeration (work splitting): stop here, the sub-tree below this prefix becomes a task of its own
+            self.cfg["_prefixes"].append(list(self.trace[: self.pos]))
+            self.cfg["_cut"] = True
+            raise PathEnd()
         opts = []
         for k in range(n):
             if conds is None or self.feasible(conds[k]):
@@ -513,7 +519,7 @@ def enum_value_sv(ci: ClassInfo, name) -> SV:
 
 # ------------------------------------------------------------------------------------------------ interpreter
 PURE_BUILTINS = {"len", "isinstance", "int", "str", "bool", "float", "min", "max", "abs", "old", "implies", "iff",
-                 "forall", "exists", "forall_obj", "exists_obj", "type", "hasattr", "getattr", "IPv4Address", "ite", "bit", "fresh", "seq", "epoch", "unchanged", "n_events", "plen", "in_net", "valid_mask", "dict_key", "dict_val", "event_kind", "event_arg", "ev", "same_dict"}
+                 "forall", "exists", "forall_obj", "exists_obj", "type", "hasattr", "getattr", "IPv4Address", "ite", "bit", "fresh", "seq", "epoch", "unchanged", "n_events", "plen", "in_net", "valid_mask", "dict_key", "dict_val", "event_kind", "event_arg", "ev", "same_dict", "same_dict_except"}
 
 
 class Interp:
@@ -856,7 +862,27 @@ class Interp:
         d = self.new_dict()
         for k, v in zip(node.keys, node.values):
             if k is None:
-                raise Refuse("dict unpacking in literal")
+                # {**m}: every entry of m is (re)inserted; later insertions win.  Membership and values are exact, the
+                # resulting iteration order is left unconstrained (fresh key sequence, well-formed by assumption)
+                m = self.ev(v, fr)
+                if not isinstance(m, SV) or T.strip_opt(m.ty).k != "dict":
+                    raise Refuse("dict unpacking of a non-dict")
+                st = self.st
+                r, mr = smt.rid(d.t), smt.rid(m.t)
+                has_d, has_m = z3.Select(st.arr("dhas"), r), z3.Select(st.arr("dhas"), mr)
+                get_d, get_m = z3.Select(st.arr("dget"), r), z3.Select(st.arr("dget"), mr)
+                x = z3.Const("x!merge", Val)
+                st.heap["dhas"] = z3.Store(st.arr("dhas"), r, z3.Lambda([x], z3.Or(z3.Select(has_d, x), z3.Select(has_m, x))))
+                st.heap["dget"] = z3.Store(st.arr("dget"), r, z3.Lambda([x], z3.If(z3.Select(has_m, x), z3.Select(get_m, x), z3.Select(get_d, x))))
+                n_ = st.fresh("merge_sz", smt.I)
+                st.assume(z3.And(n_ >= z3.Select(st.arr("dsz"), r), n_ >= z3.Select(st.arr("dsz"), mr), n_ <= z3.Select(st.arr("dsz"), r) + z3.Select(st.arr("dsz"), mr)))
+                st.heap["dsz"] = z3.Store(st.arr("dsz"), r, n_)
+                st.heap["dkeys"] = z3.Store(st.arr("dkeys"), r, st.fresh("merge_keys", smt.ArrIV))
+                st.heap["f:$seq"] = z3.Store(st.arr("f:$seq"), r, st.fresh("seqid", Val))
+                if d.ty.k == "dict" and all(a.k == "any" for a in d.ty.a):
+                    d.ty = T.strip_opt(m.ty)
+                d.c = NOC
+                continue
             kv = self.to_sv(self.ev(k, fr))
             vv = self.to_sv(self.ev(v, fr))
             self.dict_set(d, kv, vv)
@@ -1419,11 +1445,13 @@ class Interp:
                 return PBound(SV(base.t, ty, base.c), m)
             aty = self.attr_type(ci, attr, fr)
             if aty is None:
-                # look in subclasses (attribute declared lower in the hierarchy)
+                # attribute declared lower in the hierarchy: usable only when every declaring subclass agrees on its type
+                found = []
                 for sub in ci.subclasses():
-                    aty = self.attr_type(sub, attr, fr)
-                    if aty is not None:
-                        break
+                    t_ = self.attr_type(sub, attr, fr)
+                    if t_ is not None and t_ not in found:
+                        found.append(t_)
+                aty = found[0] if len(found) == 1 else (T.ANY if found else None)
             if aty is not None and aty.k == "obj" and aty.a[0].name in LOG_CLASSES:
                 return PLog()
             if aty is not None and aty.k == "opt" and aty.a[0].k == "obj" and aty.a[0].a[0].name in LOG_CLASSES:
